@@ -180,7 +180,9 @@ def run(tier, seed):
         "mutation classes": len(classes) >= 18 and min(classes.values()) >= 5,
         "accepted mutated registrations": sum(1 for r in recs2 if r["accepted"] and r["mut"]) >= 10,
         "round: existing / invalid / ok answers": all(s3.get("responses", {}).get(k, 0) > 20 for k in ("ok", "existing", "invalid")),
-        "round: duplicate history exercised": len(dup) > 0 and s3.get("rounds_where_signer_builder_fails", 0) > 0,
+        # (since fix b34c3480b a key held by another party is refused; before it, the accepted duplicate was the finding)
+        "round: key of another party attempted and refused": sum(
+            1 for r in rr if r.get("key_held_by_other_before") and not r["accepted"]) > 20 or len(dup) > 0,
     }
     bad = [k for k, v in need.items() if not v]
     if bad:
